@@ -94,7 +94,8 @@ def run(H, tier, rng):
             check(H, kind, xs, t, exact_ties=False)
 
 
-Harness("C11", "all strictly increasing integer x sequences inside 0..8 with both ends (128) x t in {1/16..16/16, 3/2} x 4 linkages, "
-        "oracle = the statement's rule in exact rational arithmetic (exact ties included for single/complete, where the doubles are "
-        "exact); cluster-count monotonicity on the same grid; seeded random real-valued inputs away from ties",
-        "x range 0..8, n <= 9; random n <= 12").main(run, replay)
+if __name__ == "__main__":
+    Harness("C11", "all strictly increasing integer x sequences inside 0..8 with both ends (128) x t in {1/16..16/16, 3/2} x 4 linkages, "
+            "oracle = the statement's rule in exact rational arithmetic (exact ties included for single/complete, where the doubles are "
+            "exact); cluster-count monotonicity on the same grid; seeded random real-valued inputs away from ties",
+            "x range 0..8, n <= 9; random n <= 12").main(run, replay)
